@@ -150,7 +150,7 @@ pub fn spanify(blocks: &mut Vec<Block>, ch: &[u8]) -> usize {
         for b in v.iter_mut() {
             match b {
                 Block::P(_, i) | Block::Inl(i) | Block::H(_, _, i) => inl(i, c, n),
-                Block::Div(_, k) | Block::Quote(_, k) => blk(k, c, n),
+                Block::Div(_, k) | Block::Quote(_, k) | Block::Wrap(_, _, k) => blk(k, c, n),
                 Block::Ul(_, it) | Block::Ol(_, _, it) => it.iter_mut().for_each(|x| blk(&mut x.kids, c, n)),
                 Block::Dl(_, it) => it.iter_mut().for_each(|x| blk(&mut x.kids, c, n)),
                 Block::Pre(..) | Block::Table(_) => {}
